@@ -20,6 +20,56 @@ pub struct Case {
     pub nested: bool,
     pub implied: bool,
     pub tagdef: String,
+    /// > 0: the root ends in `COMPONENTS OF Inc`, Inc having this many root components (and an extension of its
+    /// own, which is not included); the additions are plain components
+    #[serde(default)]
+    pub included: u8,
+}
+
+fn included_text(c: &Case) -> String {
+    let inc: Vec<String> = (0..c.included).map(|i| format!("r{i} {}", ["BOOLEAN", "INTEGER OPTIONAL", "NULL", "UTF8String"][i as usize % 4])).collect();
+    let mut items: Vec<String> = (0..c.root).map(|i| format!("c{i} BOOLEAN")).collect();
+    items.push("COMPONENTS OF Inc".into());
+    if c.marker {
+        items.push("...".into());
+    }
+    for j in 0..c.adds.len() {
+        items.push(format!("x{j} BOOLEAN"));
+    }
+    let body = format!("Inc ::= {k} {{ {}, ..., late NULL }}\nA ::= {k} {{ {} }}", inc.join(", "), items.join(", "), k = c.kind);
+    module("M", &c.tagdef, c.implied, &body)
+}
+
+fn check_included(c: &Case) -> CaseResult {
+    let src = included_text(c);
+    let key = |k: &str| format!("ext|components-of|kind={}|included={}|marker={}|additions={}|{k}", c.kind, if c.included > 2 { "many" } else { "few" }, c.marker, c.adds.len().min(2));
+    let gen = match compile1(&src) {
+        Outcome::Ok { generated, warnings } if warnings.is_empty() => generated,
+        other => return CaseResult { discs: vec![Disc::new(key(&format!("rejected:{}", other.class())), format!("{}\n{src}", other.brief()))], nontrivial: false, outcome: other.class().into(), skipped: None },
+    };
+    let full = format!("{src}\n--- generated ---\n{gen}");
+    let p = match project(&gen) {
+        Ok(p) => p,
+        Err(e) => return CaseResult { discs: vec![Disc::new("ext|unparsable", format!("{e}\n{full}"))], nontrivial: false, outcome: "unparsable".into(), skipped: None },
+    };
+    let mut discs = vec![];
+    match p.only().and_then(|m| m.find("A")) {
+        Some(Item::Struct { attrs, fields, .. }) => {
+            if attrs.non_exhaustive != (c.marker || c.implied) {
+                discs.push(Disc::new(key(&format!("non_exhaustive|exp={}", c.marker || c.implied)), full.clone()));
+            }
+            let mut want: Vec<(String, bool)> = (0..c.root).map(|i| (format!("c{i}"), false)).collect();
+            want.extend((0..c.included).map(|i| (format!("r{i}"), false)));
+            want.extend((0..c.adds.len()).map(|j| (format!("x{j}"), true)));
+            let got: Vec<(String, bool)> = fields.iter().map(|f| (f.name.clone(), f.attrs.rasn.has("extension_addition"))).collect();
+            if got != want {
+                let k = if got.iter().map(|g| &g.0).collect::<Vec<_>>() != want.iter().map(|g| &g.0).collect::<Vec<_>>() { "members" } else { "extension_addition" };
+                discs.push(Disc::new(key(k), format!("expected (field, extension addition) {want:?}\ngot {got:?}\n{full}")));
+            }
+        }
+        _ => discs.push(Disc::new(key("missing"), full.clone())),
+    }
+    CaseResult { discs, nontrivial: true, outcome: format!("components-of:{}", c.kind), skipped: None }
 }
 
 pub fn build(c: &Case) -> Ty {
@@ -89,7 +139,7 @@ impl Prop for C05 {
         "C05"
     }
     fn rule(&self) -> String {
-        "kind ∈ {SEQUENCE, SET, CHOICE, ENUMERATED} × root size r (quick 0..2, thorough 0..4; CHOICE/ENUMERATED r>=1) × marker absent/present × every addition layout of length a (quick <=4 with <=3 groups, thorough <=6 with <=3 groups) where an addition is a plain component or a [[ ]] group of 1..3 components, with and without version numbers × top-level / nested anonymous × EXTENSIBILITY IMPLIED on/off × tagging default (AUTOMATIC; thorough also EXPLICIT). Oracle: #[non_exhaustive] ⇔ marker ∨ IMPLIED; extension_addition exactly on components at index >= r; one extension_addition_group member of Option<Group> per group whose struct has exactly the grouped components in order (CHOICE: grouped alternatives are plain additions); ENUMERATED additions carry extension_addition. Non-trivial: compiled cleanly and compared.".into()
+        "(plus SEQUENCE / SET whose root ends in COMPONENTS OF a type with 1..4 root components, 0..2 own root components, marker absent / present with 0..2 additions: the included components are root components, the additions and only they are extension additions) kind ∈ {SEQUENCE, SET, CHOICE, ENUMERATED} × root size r (quick 0..2, thorough 0..4; CHOICE/ENUMERATED r>=1) × marker absent/present × every addition layout of length a (quick <=4 with <=3 groups, thorough <=6 with <=3 groups) where an addition is a plain component or a [[ ]] group of 1..3 components, with and without version numbers × top-level / nested anonymous × EXTENSIBILITY IMPLIED on/off × tagging default (AUTOMATIC; thorough also EXPLICIT). Oracle: #[non_exhaustive] ⇔ marker ∨ IMPLIED; extension_addition exactly on components at index >= r; one extension_addition_group member of Option<Group> per group whose struct has exactly the grouped components in order (CHOICE: grouped alternatives are plain additions); ENUMERATED additions carry extension_addition. Non-trivial: compiled cleanly and compared.".into()
     }
     fn enumerate(&self, tier: Tier, _seed: u64) -> Vec<Case> {
         let (rmax, amax, gmax) = if tier.thorough() { (4usize, 6usize, 3usize) } else { (2, 4, 3) };
@@ -120,16 +170,28 @@ impl Prop for C05 {
                     for implied in [false, true] {
                         for tagdef in &tagdefs {
                             // no marker: only the root
-                            out.push(Case { kind: kind.into(), root: r, marker: false, adds: vec![], versions: false, nested, implied, tagdef: tagdef.to_string() });
+                            out.push(Case { kind: kind.into(), root: r, marker: false, adds: vec![], versions: false, nested, implied, tagdef: tagdef.to_string(), included: 0 });
                             for l in &all {
                                 let has_group = l.iter().any(|v| *v > 0);
                                 for versions in [false, true] {
                                     if versions && !has_group {
                                         continue;
                                     }
-                                    out.push(Case { kind: kind.into(), root: r, marker: true, adds: l.clone(), versions, nested, implied, tagdef: tagdef.to_string() });
+                                    out.push(Case { kind: kind.into(), root: r, marker: true, adds: l.clone(), versions, nested, implied, tagdef: tagdef.to_string(), included: 0 });
                                 }
                             }
+                        }
+                    }
+                }
+            }
+        }
+        // COMPONENTS OF at the end of the root: the included components are root components, whatever their number
+        for kind in ["SEQUENCE", "SET"] {
+            for r in 0..=2usize {
+                for included in 1..=4u8 {
+                    for (marker, a) in [(false, 0usize), (true, 0), (true, 1), (true, 2)] {
+                        for implied in [false, true] {
+                            out.push(Case { kind: kind.into(), root: r, marker, adds: vec![0; a], versions: false, nested: false, implied, tagdef: "AUTOMATIC".into(), included });
                         }
                     }
                 }
@@ -139,8 +201,8 @@ impl Prop for C05 {
             for a in 0..=3usize {
                 for nested in [false, true] {
                     for implied in [false, true] {
-                        out.push(Case { kind: "ENUMERATED".into(), root: r, marker: false, adds: vec![], versions: false, nested, implied, tagdef: "AUTOMATIC".into() });
-                        out.push(Case { kind: "ENUMERATED".into(), root: r, marker: true, adds: vec![0; a], versions: false, nested, implied, tagdef: "AUTOMATIC".into() });
+                        out.push(Case { kind: "ENUMERATED".into(), root: r, marker: false, adds: vec![], versions: false, nested, implied, tagdef: "AUTOMATIC".into(), included: 0 });
+                        out.push(Case { kind: "ENUMERATED".into(), root: r, marker: true, adds: vec![0; a], versions: false, nested, implied, tagdef: "AUTOMATIC".into(), included: 0 });
                     }
                 }
             }
@@ -148,6 +210,9 @@ impl Prop for C05 {
         out
     }
     fn check(&self, c: &Case) -> CaseResult {
+        if c.included > 0 {
+            return check_included(c);
+        }
         let src = text(c);
         let o = compile1(&src);
         let layout: String = c.adds.iter().map(|a| char::from_digit(*a as u32, 10).unwrap()).collect();
